@@ -76,6 +76,27 @@ func rulesC17(c *Ctx) {
 		n2++
 		con := fmt.Sprintf("integer->string conversion #%d in varutil.ReadArguments", n2)
 		ub, okb := upperBoundAt(facts, b, cv.X, 0)
+		if !okb || ub >= 0x80 {
+			// guarded by a private predicate over the value (isMarkerChar(ch)) that only accepts ASCII
+			if facts.HoldsOnAllEdges(b, func(fs factSet) bool {
+				for k := range fs {
+					call, isCall := k.v.(*ssa.Call)
+					if !isCall || !k.pol {
+						continue
+					}
+					g := call.Call.StaticCallee()
+					if g == nil || !inModule(g) || len(call.Call.Args) != 1 || !(call.Call.Args[0] == cv.X || sameValue(call.Call.Args[0], cv.X)) {
+						continue
+					}
+					if predicateImpliesASCII(g) {
+						return true
+					}
+				}
+				return false
+			}) {
+				ub, okb = 0x7f, true
+			}
+		}
 		c.Check(okb && ub < 0x80, "R2", con, cv.Pos(), fmt.Sprintf("operand proven <= %d (ASCII) on every incoming edge", ub),
 			"a byte-derived integer is converted with string(rune) without being proven ASCII — bytes >= 0x80 come back as two bytes")
 	})
@@ -106,13 +127,26 @@ func rulesC17(c *Ctx) {
 				c.Check(one, "R3", fmt.Sprintf("Read #%d on the input", n3), x.Pos(), "buffer of constant length 1", "the input is read with a buffer longer than one byte — bytes after the command's newline are swallowed and the next call misses the start of the next command")
 				continue
 			}
+			// a private helper that itself only Reads, with the caller's one-byte buffer
+			if cf := x.Call.StaticCallee(); cf != nil && inModule(cf) {
+				okHelper := false
+				for ai, a := range x.Call.Args {
+					if a == ssa.Value(reader) && ai < len(cf.Params) {
+						okHelper = helperOnlyReadsOneByte(cf, ai, x.Call.Args)
+					}
+				}
+				if okHelper {
+					n3++
+					continue
+				}
+			}
 			okUse = false
 		default:
 			okUse = false
 		}
 	}
 	c.Check(okUse, "R3", "the input reader is only Read from", f.Pos(), "no wrapper (bufio, ReadAll, ...)", "the reader is handed to something else that may read ahead")
-	c.Floor("R3", n3, 4)
+	c.Floor("R3", n3, 2)
 
 	// ---- R4 every cycle consumes input -------------------------------------------------------------
 	{
@@ -203,7 +237,7 @@ func rulesC17(c *Ctx) {
 		}
 		c.Check(okS, "R5", con, sl.Pos(), "dominated by HasSuffix of the same string with a suffix at least as long as what is cut", "the tail is cut without a dominating HasSuffix guarantee — a short string slices out of range (panic)")
 	})
-	c.Floor("R5", n5, 2)
+	c.Floor("R5", n5, 1)
 
 	// ---- R6 the escape flag covers one byte -------------------------------------------------------------
 	esc := abs.PhiNamed("isEscaped")
@@ -303,9 +337,8 @@ func sameStringValue(a, b ssa.Value, from, to ssa.Instruction) bool {
 
 func ruleArgMapping(c *Ctx) {
 	inj := c.P.Func("app/scope/argscope", "", "InjectArgs")
-	sep := c.P.Func("app/scope/argscope", "", "separate")
-	if inj == nil || sep == nil {
-		c.Bad("R8", "argscope.InjectArgs / separate", 0, "anchor not found")
+	if inj == nil {
+		c.Bad("R8", "argscope.InjectArgs", 0, "anchor not found")
 		return
 	}
 	n := 0
@@ -353,14 +386,29 @@ func ruleArgMapping(c *Ctx) {
 	c.Floor("R8", n, 1)
 	// separate: first '='
 	okS := false
-	for _, ci := range Calls(sep) {
-		if ci.Static != nil && qualName(ci.Static) == "strings.Index" {
-			if s, ok := constString(ci.Arg(1)); ok && s == "=" {
-				okS = true
+	for _, g := range reachableSamePkg(inj, 2) {
+		for _, ci := range Calls(g) {
+			if ci.Static == nil {
+				continue
+			}
+			switch qualName(ci.Static) {
+			case "strings.Index", "strings.IndexByte", "strings.Cut":
+				if s, ok := constString(ci.Arg(1)); ok && s == "=" {
+					okS = true
+				}
+				if k, ok := constInt(ci.Arg(1)); ok && k == '=' {
+					okS = true
+				}
+			case "strings.SplitN":
+				if s, ok := constString(ci.Arg(1)); ok && s == "=" {
+					if k, ok := constInt(ci.Arg(2)); ok && k == 2 {
+						okS = true
+					}
+				}
 			}
 		}
 	}
-	c.Check(okS, "R8", "named arguments split at the first '='", sep.Pos(), "strings.Index(arg, \"=\")", "name/value are not separated at the first '=' (a value containing '=' is cut)")
+	c.Check(okS, "R8", "named arguments split at the first '='", inj.Pos(), "strings.Index(arg, \"=\")", "name/value are not separated at the first '=' (a value containing '=' is cut)")
 }
 
 func unwrapIface(v ssa.Value) ssa.Value {
@@ -394,4 +442,98 @@ func reachAvoiding(a, b ssa.Instruction, avoid *ssa.BasicBlock) bool {
 		stack = append(stack, x.Succs...)
 	}
 	return false
+}
+
+// predicateImpliesASCII: g(x) bool returns true only for x < 0x80.
+func predicateImpliesASCII(g *ssa.Function) bool {
+	if g.Blocks == nil || len(g.Params) != 1 || g.Signature.Results().Len() != 1 || !isBoolT(g.Signature.Results().At(0).Type()) {
+		return false
+	}
+	p := g.Params[0]
+	facts := factsFor(g)
+	var trueImplies func(v ssa.Value, fs factSet, depth int) bool
+	trueImplies = func(v ssa.Value, fs factSet, depth int) bool {
+		if depth > 6 {
+			return false
+		}
+		if b, ok := constBool(v); ok {
+			if !b {
+				return true
+			}
+			ub, okb := ubFromFacts(fs, p)
+			return okb && ub < 0x80
+		}
+		switch x := v.(type) {
+		case *ssa.Phi:
+			for i, e := range x.Edges {
+				if !trueImplies(e, factsOnEdge(facts, x.Block().Preds[i], x.Block()), depth+1) {
+					return false
+				}
+			}
+			return true
+		case *ssa.BinOp:
+			if x.X == ssa.Value(p) {
+				if k, ok := constInt(x.Y); ok {
+					switch x.Op {
+					case token.EQL, token.LEQ:
+						return k < 0x80
+					case token.LSS:
+						return k <= 0x80
+					}
+				}
+			}
+			// a lower-bound comparison is only acceptable when an upper bound is already known
+			ub, okb := ubFromFacts(fs, p)
+			return okb && ub < 0x80
+		}
+		return false
+	}
+	for _, r := range returnsOf(g) {
+		if !trueImplies(r.Results[0], facts.At(r.Block()), 0) {
+			return false
+		}
+	}
+	return true
+}
+
+// helperOnlyReadsOneByte: helper h uses its reader parameter (index ri) only to
+// Read into a buffer that is itself a parameter bound, at the call, to a
+// one-byte buffer.
+func helperOnlyReadsOneByte(h *ssa.Function, ri int, callArgs []ssa.Value) bool {
+	if h.Blocks == nil {
+		return false
+	}
+	rp := h.Params[ri]
+	n := 0
+	for _, r := range *rp.Referrers() {
+		switch x := r.(type) {
+		case *ssa.DebugRef:
+		case *ssa.Call:
+			if !(x.Call.IsInvoke() && x.Call.Value == ssa.Value(rp) && x.Call.Method.Name() == "Read") {
+				return false
+			}
+			n++
+			okBuf := false
+			for bi, bp := range h.Params {
+				if x.Call.Args[0] == ssa.Value(bp) && bi < len(callArgs) {
+					if sl, ok := callArgs[bi].(*ssa.Slice); ok {
+						if a, ok := sl.X.(*ssa.Alloc); ok && constMakeLen(a) == 1 {
+							okBuf = true
+						}
+					}
+				}
+			}
+			if sl, ok := x.Call.Args[0].(*ssa.Slice); ok {
+				if a, ok := sl.X.(*ssa.Alloc); ok && constMakeLen(a) == 1 {
+					okBuf = true
+				}
+			}
+			if !okBuf {
+				return false
+			}
+		default:
+			return false
+		}
+	}
+	return n > 0
 }
